@@ -44,8 +44,10 @@ def finish_subsegment(writer, k=64):
     # while reducing.
     writer.pool.reduce_to(1, k)
 
-    # The filename of the single remaining run
-    runname = writer.pool.runs[0]
+    # The filename of the single remaining run. A sub-writer that received no
+    # documents, or only documents without indexed terms, has no run at all.
+    runs = writer.pool.runs
+    runname = runs[0] if runs else None
     # The indexed field names
     fieldnames = writer.pool.fieldnames
     # The segment object (parent can use this to re-open the files created
@@ -322,8 +324,9 @@ class MpWriter(SegmentWriter):
             docmap = self.write_per_doc(fieldnames, pdr)
             assert docmap is None
 
-            items = self._read_and_renumber_run(runname, basedoc)
-            sources.append(items)
+            if runname is not None:
+                items = self._read_and_renumber_run(runname, basedoc)
+                sources.append(items)
 
         # Create a MultiLengths object combining the length files from the
         # subtask segments
